@@ -80,23 +80,11 @@ def run(repo, rep):
     # an explicit depth=None (no limit) must reach the pipeline as None, whatever default was configured (imported from C18.b)
     from .c18 import check_merge
     rep.floor('C11.a:explicit-none', check_merge(repo, rep, 'C11.a'), 6)
-    # normalisation of None
-    pts = repo.func('prettyprinter', 'python_to_sdocs')
-    n2 = 0
-    g = Guards(pts.node)
-    norm = [s for s in ast.walk(pts.node) if isinstance(s, ast.Assign) and src(s.targets[0]) == 'depth']
-    n2 += 1
-    ok = len(norm) == 1 and src(norm[0].value) in ("float('inf')", 'math.inf', 'inf', 'INF_FLOAT') and \
-        any(ff.pol and ff.text == 'depth is None' for ff in g.of(norm[0]))
-    rep.check(ok, 'C11.a', 'python_to_sdocs:none-is-infinite', pts.where, 'depth None -> +inf',
-              'depth=None is no longer normalised to +infinity (%s)' % [(src(s.value), g.texts(s)) for s in norm], nontrivial=True)
-    ctors = [c for c in ast.walk(pts.node) if isinstance(c, ast.Call) and call_name(c) == 'PrettyContext']
-    for c in ctors:
-        kw = {k.arg: src(k.value) for k in c.keywords}
-        n2 += 1
-        rep.check(kw.get(ATTR) == 'depth' and (not norm or c.lineno > norm[0].lineno), 'C11.a', 'python_to_sdocs:passes-depth',
-                  '%s:%d' % (m.relpath, c.lineno), 'top-level context gets the normalised depth',
-                  'top-level context gets depth_left=%s' % kw.get(ATTR), nontrivial=True)
+    # depth reaches the root context; None means unlimited (read off the interpreted entry point)
+    from . import entrymodel
+    n2 = entrymodel.report(repo, rep, 'C11.a', lambda k: k in ('ctx:depth', 'ctx:depth-none-is-unlimited', 'given:single-path', 'none:single-path',
+                                                                 'value-printed', 'context-is-a-PrettyContext'),
+                           'the requested depth does not reach the root context')
     from . import ctxmodel
     n2 += ctxmodel.report(repo, rep, 'C11.a', lambda k: k == 'ctor:stores:depth_left')
 
